@@ -8,6 +8,15 @@ C  the property itself (concat, maximal runs, mixed iff both kinds) evaluated on
 """
 import itertools
 
+CLAIM = {
+    "level": "proof",
+    "text": "Coq theorems over a line-by-line model of ParseOne/ParseAll (termination, ordered concatenation, "
+            "maximal file runs, mixed-error iff) for all argument lists; model tied to the code by an exhaustive "
+            "small-scope + seeded differential run of the extracted model against xgoprojs.ParseAll.",
+    "note": "Trusted: Coq kernel, extraction (ExtrOcamlBasic), harness; filepath.Ext modelled for '/' separator; "
+            "the Go code itself is modelled, not verified.",
+}
+
 ALPHA = ["a.xgo", "./d", ".", "/x", "C:x", "a/b", "", "a.", ".x", "x/.y/z", "b.go", "1:", "\\w", "é.gox"]
 BYTES = list(b"a./\\:Cx.") + [0xC3]
 
